@@ -239,6 +239,18 @@ func oneCase(r *core.Run, idx int, c fcase, d dialect, way string) (string, stri
 		if c.Fmt == "FIXED" {
 			args = append(args, "--delimiter-positions", fixedPos(c))
 		}
+		// the session's flags for query results must not reach the table file: it is rewritten with its own attributes
+		var resultFlags []string
+		switch idx % 4 {
+		case 1:
+			resultFlags = []string{"--without-header", "--enclose-all"}
+		case 2:
+			resultFlags = []string{"--format", "JSON", "--pretty-print", "--write-encoding", "SJIS"}
+		case 3:
+			resultFlags = []string{"--write-delimiter", ";", "--line-break", "CRLF", "--json-escape", "HEX", "--format", "TSV"}
+		}
+		args = append(args, resultFlags...)
+		desc += fmt.Sprintf(" (session result flags %v)", resultFlags)
 		rs = sut.RunBin(sut.BinOpts{Csvq: r.Csvq, Dir: dir, Args: append(args, "DELETE FROM `"+out+"`; INSERT INTO `"+out+"` SELECT * FROM `src.json`; COMMIT;"), Timeout: 30 * time.Second})
 		if rs.Exit != 0 {
 			after, _ := os.ReadFile(outp)
